@@ -4,11 +4,13 @@ import re
 
 from vmon import gen, instrument
 from vmon import monitors as M
-from vmon.rxgen import sample
+from vmon.rxgen import cover, sample
 
 LEVEL = "exploration"
-RULE = ("W1: for EVERY extractor built from the installed reporters-db (about 6,800 patterns) k members of its "
-        "pattern's language are sampled from the regex parse tree (k=2 quick, 16 thorough; case-flipped and "
+RULE = ("W1: for EVERY extractor built from the installed reporters-db (about 6,800 patterns) members of its "
+        "pattern's language are generated from the regex parse tree with BRANCH COVERAGE (every alternative of "
+        "every alternation, i.e. every reporter spelling of every pattern, is taken at least once; about 12 "
+        "members per pattern) plus k random ones (k=2 quick, 16 thorough; case-flipped and "
         "with the non-ASCII case variants of i/s/k substituted for case-insensitive extractors), re-validated "
         "with the real compiled regex, then: the extractor must be in get_extractors(member) and the member "
         "must contain one of the extractor's filter strings; W2/W3 documents: get_extractors(text) must "
@@ -19,10 +21,10 @@ RULE = ("W1: for EVERY extractor built from the installed reporters-db (about 6,
 ASSUMPTIONS = ["the regular-language-inclusion reading of the property is a static for-all over each pattern's "
                "language; runtime monitoring decides it only on the sampled members (stated gap, DESIGN §4/C13)",
                "every sampled member is validated by the real compiled regex before use"]
-FLOORS = {"quick": {"extractors_total": 6000, "extractors_sampled": 6000, "members_checked": 10000,
+FLOORS = {"quick": {"extractors_total": 6000, "extractors_sampled": 6000, "members_checked": 50000, "branch_cover_members": 50000,
                     "doc_lossless_checks": 150, "stream_equal_full": 150, "stream_equal_sublist": 600,
                     "case_insensitive_members": 150, "fold_substituted_members": 40},
-          "thorough": {"extractors_sampled": 6000, "members_checked": 80000, "doc_lossless_checks": 3000,
+          "thorough": {"extractors_sampled": 6000, "members_checked": 300000, "doc_lossless_checks": 3000,
                        "stream_equal_full": 3000, "stream_equal_sublist": 20000}}
 K = {"quick": 2, "thorough": 16}
 NDOC = {"quick": 25, "thorough": 300}
@@ -44,12 +46,19 @@ def classify(v):
 
 
 def members(e, rng, k, rec):
+    """Branch coverage first: every alternative of every alternation of the pattern (in particular every
+    reporter spelling of the pattern's reporter group) is taken at least once; then random members."""
     out = []
     tries = 0
-    while len(out) < k and tries < k * 5:
+    try:
+        pool = list(cover(e.regex, rng, e.flags, max_samples=max(14, 6 * k)))
+    except Exception:
+        pool = []
+    rec.count("branch_cover_members", len(pool))
+    while (pool or len(out) < k) and tries < k * 5 + 100:
         tries += 1
         try:
-            s = sample(e.regex, rng, e.flags)
+            s = pool.pop() if pool else sample(e.regex, rng, e.flags)
         except Exception:
             break
         if e.flags & re.I and rng.random() < 0.5:
